@@ -43,7 +43,10 @@ def gen_cases(ctx):
         c.reflink = rng.choice(['auto', 'never'])
         c.prior = rng.choice(['absent', 'absent', 'shorter', 'longer', 'longer-sparse'])
         c.plan, c.extra, c.tag = [], [], 'gen'
-        if rng.random() < 0.3:
+        if rng.random() < 0.15:      # source and destination on different file systems: every copy_file_range is refused
+            c.plan = [f'fail copy_file_range * * {scen.ERRNO[rng.choice(["EXDEV", "ENOSYS", "EPERM"])]}']
+            c.workers = rng.choice([2, 4, 8])
+        elif rng.random() < 0.3:
             f, d = rng.choice(c.files)
             nth = rng.choice(["1", "2", "*"])
             ln = rng.choice([1, 3, 4095, 4096, 100000])
